@@ -1,6 +1,6 @@
 CONSTANTS
   Scenarios <- ScnAll
-  FixWait = TRUE
+  FixF10 = FALSE
   GenHist = TRUE
 INIT Init
 NEXT Next
